@@ -30,7 +30,8 @@ with cf.ThreadPoolExecutor(jobs) as ex:
     for name, res in ex.map(one, seeds):
         results[name] = res
         print(name, res, flush=True)
-json.dump(results, open("/verif/seeded/RESULTS.json", "w"), indent=1, sort_keys=True)
+json.dump({"_run": {"VERIF_SEED": os.environ.get("VERIF_SEED", "0"), "tier": os.environ.get("SEEDEVAL_TIER", "quick"), "repo_head": subprocess.run(["git", "-C", "/repo", "log", "--format=%h", "-1"], capture_output=True, text=True).stdout.strip()}, **results},
+          open("/verif/seeded/RESULTS.json", "w"), indent=1, sort_keys=True)
 missed = [n for n, r in results.items() if not r["caught"]]
 print(f"{len(results) - len(missed)} / {len(results)} caught; missed: {missed}")
 sys.exit(1 if missed else 0)
